@@ -80,7 +80,7 @@ func isFromGroup(shape string) bool {
 var litStyles = []string{"sq", "sq-bs", "sq-dbl", "E", "E-bsq", "E-bsbs", "dq-alias", "dq-alias-bs", "dollar", "dtag", "dollar-q", "dtag-uni", "sq-bsbs", "E-lower-bsbs"}
 var litContents = []string{"a", "a", "a", "read_parquet", "__STR_0__", "__IDENT_0__", "__FROM_MASK_0__", "--", "/*", "*/", ";", "from x", "'", "it''s", "é日"}
 var tails = []string{"'x'='x'", "'x' = 'x'", `"time" IS NOT NULL`, "'--' <> 'a'", "1=1 -- '", "1=1 /* ' */", "$$x$$=$$x$$", "E'x'=E'x'", `1=1 -- "`, "'/*' <> '*/'"}
-var comments = []string{"/* c */", "/**/", "/* it's */", `/* " */`, "/* /* n */ */", "-- c\n", "-- it's\n", "--\"\n", "-- c\r", "--\r", "/* -- */", "-- /*\n", "/* $$ */", "/* __STR_0__ */", "-- from db2.secret\n", "/* EXTRACT( */"}
+var comments = []string{"/* c */", "/**/", "/* it's */", `/* " */`, "/* /* n */ */", "-- c\n", "-- it's\n", "--\"\n", "-- c\r", "--\r", "/* -- */", "-- /*\n", "/* $$ */", "/* __STR_0__ */", "-- from db2.secret\n", "/* EXTRACT( */", "--read_parquet\r", "/* read_parquet */", "-- read_parquet\n"}
 var wsVariants = []string{"\n", "\t", "\r", "\r\n", "\f", "\v", "  ", "\u00a0", "\u2003", "\u3000", " \n "}
 var lookalikes = []string{"__STR_0__", "__STR_1__", "__IDENT_0__", "__IDENT_1__", "__FROM_MASK_0__"}
 var semis = []string{";", "; ", ";\n", " ;", ";;", "; -- c"}
@@ -303,6 +303,12 @@ func render(sp spec) string {
 			nows = true
 		}
 	}
+	midlit := ""
+	for _, d := range sp.Decos {
+		if d.Kind == "midlit" {
+			midlit = d.Arg
+		}
+	}
 	srcText, abut := renderSrc(sp.Src, fnws)
 	if nows {
 		abut = true
@@ -384,7 +390,68 @@ func render(sp spec) string {
 	if i := strings.IndexByte(shape, ':'); i >= 0 {
 		shape, arg = shape[:i], shape[i+1:]
 	}
+	// mid writes a predicate with a string literal that stands BEFORE the target source
+	mid := func(col string, and bool) {
+		if midlit == "" {
+			return
+		}
+		if and {
+			b.raw(" " + col + " <> '" + midlit + "' ")
+			b.kw("AND")
+		} else {
+			b.sl()
+			b.kw("WHERE")
+			b.raw(" " + col + " <> '" + midlit + "'")
+		}
+	}
 	switch shape {
+	case "splice":
+		// arg = holder:k:term ; a literal (or identifier) whose text is the placeholder
+		// of a LATER literal whose body is SQL naming the target source
+		f := strings.Split(arg, ":")
+		holder, k, term := f[0], f[1], f[2]
+		inner := strings.ReplaceAll(srcText, "'", "''")
+		body := " , host FROM " + inner
+		if term == "dash" {
+			body += " --"
+		}
+		look := "__STR_" + k + "__"
+		var hold string
+		switch holder {
+		case "dq":
+			hold = `1 AS "` + look + `"`
+			body = `"` + body
+		case "sqident":
+			hold = "'__IDENT_" + k + "__' AS a"
+		default:
+			hold = "'" + look + "' AS a"
+		}
+		payload := "'" + body + "'"
+		if holder == "sqident" {
+			payload = `"` + strings.ReplaceAll(body, `"`, `""`) + `"`
+		}
+		b.kw("SELECT")
+		b.sl()
+		switch k {
+		case "0":
+			b.raw(payload + " AS p, " + hold)
+			b.sl()
+			b.kw("FROM")
+			b.sl()
+			b.raw(comp)
+		default:
+			b.raw(hold)
+			if k == "2" {
+				b.raw(", 'z' AS b")
+			}
+			b.sl()
+			b.kw("FROM")
+			b.sl()
+			b.raw(comp)
+			b.sl()
+			b.kw("WHERE")
+			b.raw(" host <> " + payload)
+		}
 	case "from":
 		sel("*")
 		fromX()
@@ -455,6 +522,7 @@ func render(sp spec) string {
 		b.raw(comp + " a")
 		b.sl()
 		b.kw("WHERE")
+		mid("a.note", true)
 		b.raw(" a.value < (")
 		b.kw("SELECT")
 		b.raw(" max(value) ")
@@ -468,6 +536,7 @@ func render(sp spec) string {
 		b.raw(comp + " a")
 		b.sl()
 		b.kw("WHERE")
+		mid("a.note", true)
 		b.sl()
 		b.kw("EXISTS")
 		b.raw(" (")
@@ -483,6 +552,7 @@ func render(sp spec) string {
 		b.raw(comp + " a")
 		b.sl()
 		b.kw("WHERE")
+		mid("a.note", true)
 		b.raw(" a.region ")
 		b.kw("IN")
 		b.raw(" (")
@@ -572,6 +642,7 @@ func render(sp spec) string {
 		b.raw(" note ")
 		b.kw("FROM")
 		b.raw(" " + comp)
+		mid("note", false)
 		b.sl()
 		b.kws(arg)
 		b.sl()
@@ -756,6 +827,8 @@ func (g *genCtx) genDeco() deco {
 		return deco{Kind: "semi", Arg: pick(r, semis)}
 	case k < 97:
 		return deco{Kind: "fnws", Arg: pick(r, append([]string{" ", "/**/", "/* c */"}, wsVariants...))}
+	case k < 99:
+		return deco{Kind: "midlit", Arg: pick(r, []string{"--", "/*", "*/", "-- x", "a"})}
 	default:
 		return deco{Kind: "nows"}
 	}
@@ -781,11 +854,14 @@ func (g *genCtx) genSpec() spec {
 		sp.Shape = pick(r, shapesOther)
 	}
 	sp.Src = g.genSrc(sp.Header)
+	if r.IntN(100) < 4 {
+		sp.Shape = "splice:" + pick(r, []string{"sq", "sq", "dq", "sqident"}) + ":" + pick(r, []string{"0", "1", "1", "2"}) + ":" + pick(r, []string{"dash", "dash", "none"})
+	}
 	nd := []int{0, 0, 1, 1, 1, 2, 2, 3, 4}[r.IntN(9)]
 	seen := map[string]bool{}
 	for i := 0; i < nd; i++ {
 		d := g.genDeco()
-		single := d.Kind == "tail" || d.Kind == "semi" || d.Kind == "fnws" || d.Kind == "kwlook" || d.Kind == "nows"
+		single := d.Kind == "midlit" || d.Kind == "tail" || d.Kind == "semi" || d.Kind == "fnws" || d.Kind == "kwlook" || d.Kind == "nows"
 		if single && seen[d.Kind] {
 			continue
 		}
@@ -860,6 +936,63 @@ func systematicSpecs(fileFns []string) []spec {
 	for _, fn := range []string{"query", "query_table", "json_execute_serialized_sql", "query-dollar"} {
 		for _, st := range []string{"scan", "rp", "tref", "fromonly"} {
 			out = append(out, spec{Shape: "from", EP: "query", Src: src{Kind: "sqlstr", DB: "db2", M: "secret", Fn: fn, Style: st, Path: "abs-glob"}})
+		}
+	}
+	// placeholder splice: a literal holding the placeholder text of a later literal
+	for _, holder := range []string{"sq", "dq", "sqident"} {
+		for _, k := range []string{"0", "1", "2"} {
+			for _, term := range []string{"dash", "none"} {
+				for _, x := range []src{
+					{Kind: "scan", DB: "db2", M: "secret", Style: "dollar", Path: "abs-file"},
+					{Kind: "scan", DB: "db2", M: "secret", Style: "dollar", Path: "abs-glob"},
+					{Kind: "scan", DB: "db2", M: "secret", Style: "dq", Path: "abs-file"},
+					{Kind: "scan", DB: "db2", M: "secret", Style: "dtag", Path: "abs-glob"},
+					{Kind: "scan", DB: "db2", M: "secret", Style: "sq", Path: "abs-file"},
+					{Kind: "func", DB: "db2", M: "secret", Fn: "read_parquet", FnQ: "plain", Style: "dollar", Path: "abs-file"},
+					{Kind: "tref", DB: "db2", M: "secret", Style: "plain"},
+				} {
+					for _, h := range []string{"", "db1"} {
+						out = append(out, spec{Shape: "splice:" + holder + ":" + k + ":" + term, EP: "query", Header: h, Src: x})
+					}
+				}
+			}
+		}
+	}
+	// raw-SQL fast path: the substring read_parquet in a comment or literal, alone and
+	// with a CR-terminated comment, in front of every replacement-scan spelling
+	for _, st := range scanStyles {
+		x := src{Kind: "scan", DB: "db2", M: "secret", Style: st, Path: "abs-file"}
+		for _, ds := range [][]deco{
+			{{Kind: "cmt", Arg: "--read_parquet\r", Pos: 3}},
+			{{Kind: "cmt", Arg: "--read_parquet\r", Pos: 0}},
+			{{Kind: "cmt", Arg: "/* read_parquet */", Pos: 3}},
+			{{Kind: "cmt", Arg: "-- read_parquet\n", Pos: 3}},
+			{rp},
+			{rp, {Kind: "cmt", Arg: "-- c\r", Pos: 3}},
+			{{Kind: "tail", Arg: "'read_parquet' <> 'a'"}},
+		} {
+			out = append(out, spec{Shape: "from", EP: "query", Src: x, Decos: ds})
+			out = append(out, spec{Shape: "comma", EP: "query", Src: x, Decos: ds})
+		}
+	}
+	// comment markers INSIDE string literals standing before a denied db.table reference
+	for _, sh := range []string{"from", "comma", "join:JOIN", "join:LEFT JOIN", "union:UNION ALL", "union:UNION", "subq-in", "subq-exists", "subq-scalar", "subq-from", "cte"} {
+		for _, st := range []string{"plain", "dq", "bare"} {
+			x := src{Kind: "tref", DB: "db2", M: "secret", Style: st}
+			hdr := ""
+			if st == "bare" {
+				hdr = "db2"
+			}
+			for _, ds := range [][]deco{
+				{{Kind: "lit", Arg: "sq", Arg2: "--"}},
+				{{Kind: "lit", Arg: "sq", Arg2: "/*"}, {Kind: "tail", Arg: "'*/' <> 'a'"}},
+				{{Kind: "midlit", Arg: "--"}},
+				{{Kind: "midlit", Arg: "/*"}, {Kind: "tail", Arg: "'*/' <> 'a'"}},
+				{{Kind: "lit", Arg: "dollar", Arg2: "--"}},
+				{{Kind: "lit", Arg: "E", Arg2: "--"}},
+			} {
+				out = append(out, spec{Shape: sh, EP: "query", Header: hdr, Src: x, Decos: ds})
+			}
 		}
 	}
 	// every statement head x every way of quoting a path, undisguised
@@ -965,17 +1098,19 @@ func wsClass(w string) string {
 // Mechanism classes: one name per root cause in arc's normalisation, so that the same
 // cause reached through different spellings gets the same signature.
 const (
-	mBackslash  = `backslash before a closing quote treated as an escape in an ordinary literal / quoted identifier ('a\' ... ')`
-	mEString    = `E-string escapes not consumed left to right (E'a\\' / E'a\'')`
-	mDollarUni  = "dollar-quote tag with a non-ASCII letter not recognised ($é$...$é$)"
-	mFromMask   = "placeholder look-alike __FROM_MASK_n__ in user text rewritten to FROM by the unmask step"
-	mQuoteInCmt = "quote or dollar-quote marker inside a comment opens a masked literal (masking runs before comment stripping)"
-	mCRComment  = "carriage return ends a line comment for DuckDB but not for arc"
-	mUniSpace   = "Unicode space accepted by DuckDB as whitespace but not by arc's scanners"
-	mIdentStrip = "identifier quotes stripped before masking expose a quote or comment marker inside a quoted identifier"
-	mRewriteSkp = "statement text mentions read_parquet inside a literal (transform skipped, raw text executed)"
-	mNoSpace    = "no whitespace between FROM/JOIN and the quoted source (permission extractor requires whitespace)"
-	mGluedFn    = "quoted function name abutting the preceding keyword (identifier-quote stripping glues it to the keyword and defeats the denylist's word boundary)"
+	mBackslash   = `backslash before a closing quote treated as an escape in an ordinary literal / quoted identifier ('a\' ... ')`
+	mEString     = `E-string escapes not consumed left to right (E'a\\' / E'a\'')`
+	mDollarUni   = "dollar-quote tag with a non-ASCII letter not recognised ($é$...$é$)"
+	mFromMask    = "placeholder look-alike __FROM_MASK_n__ in user text rewritten to FROM by the unmask step"
+	mQuoteInCmt  = "quote or dollar-quote marker inside a comment opens a masked literal (masking runs before comment stripping)"
+	mCRComment   = "carriage return ends a line comment for DuckDB but not for arc"
+	mUniSpace    = "Unicode space accepted by DuckDB as whitespace but not by arc's scanners"
+	mIdentStrip  = "identifier quotes stripped before masking expose a quote or comment marker inside a quoted identifier"
+	mRewriteSkp  = "raw-SQL fast path: statement containing the substring read_parquet (in a literal or comment) is executed unrewritten"
+	mMarkerInLit = "comment marker inside a string literal that precedes the source"
+	mSplice      = "placeholder look-alike __STR_n__ inside a literal spliced by the unmask step (a later literal's body becomes executable SQL)"
+	mNoSpace     = "no whitespace between FROM/JOIN and the quoted source (permission extractor requires whitespace)"
+	mGluedFn     = "quoted function name abutting the preceding keyword (identifier-quote stripping glues it to the keyword and defeats the denylist's word boundary)"
 )
 
 func decoClass(d deco) string {
@@ -1005,7 +1140,11 @@ func decoClass(d deco) string {
 			cls = append(cls, mRewriteSkp)
 		default:
 			if len(cls) == 0 { // content matters only when the style itself is unremarkable
-				cls = append(cls, "literal content "+d.Arg2)
+				if d.Arg2 == "--" || d.Arg2 == "/*" || d.Arg2 == "*/" {
+					cls = append(cls, mMarkerInLit)
+				} else {
+					cls = append(cls, "literal content "+d.Arg2)
+				}
 			}
 		}
 		if len(cls) == 0 {
@@ -1014,9 +1153,15 @@ func decoClass(d deco) string {
 		return strings.Join(cls, " + ")
 	case "tail":
 		return "later quoted text (" + d.Arg + ")"
+	case "midlit":
+		return mMarkerInLit
 	case "cmt":
 		a := d.Arg
 		switch {
+		case strings.HasSuffix(a, "\r") && strings.Contains(a, "read_parquet"):
+			return mCRComment + " + " + mRewriteSkp
+		case strings.Contains(a, "read_parquet"):
+			return mRewriteSkp
 		case strings.HasSuffix(a, "\r"):
 			return mCRComment
 		case strings.ContainsAny(a, `'"`) || strings.Contains(a, "$$"):
@@ -1073,6 +1218,9 @@ func signature(sp spec, fs []finding, epEssential, hdrEssential bool, alone func
 			what = "unchecked file read"
 		}
 	}
+	if strings.HasPrefix(sp.Shape, "splice") {
+		return what + " via " + mSplice
+	}
 	var cls []string
 	seen := map[string]bool{}
 	add := func(c string) {
@@ -1106,8 +1254,11 @@ func signature(sp spec, fs []finding, epEssential, hdrEssential bool, alone func
 	// A disguise that, alone on a plain SELECT, already defeats the checks is the
 	// cause; whatever else the reduced statement still needs around it (a second
 	// disguise, a join shape) is circumstance and stays in the detail.
-	if alone != nil && sp.Src.Kind != "tref" {
+	if alone != nil {
 		for _, cl := range cls {
+			if sp.Src.Kind == "tref" && cl != mMarkerInLit {
+				continue // for other disguises a fooled table reference is named with its spelling
+			}
 			if alone(cl) {
 				return what + " hidden by " + cl
 			}
@@ -1145,15 +1296,16 @@ func signature(sp spec, fs []finding, epEssential, hdrEssential bool, alone func
 
 // canonicalDeco is the plainest spelling of each mechanism class.
 var canonicalDeco = map[string]deco{
-	mBackslash:  {Kind: "lit", Arg: "sq-bs", Arg2: "a"},
-	mEString:    {Kind: "lit", Arg: "E-bsbs", Arg2: "a"},
-	mDollarUni:  {Kind: "lit", Arg: "dtag-uni", Arg2: "a"},
-	mFromMask:   {Kind: "kwlook", Arg: "extract"},
-	mQuoteInCmt: {Kind: "cmt", Arg: "/* it's */", Pos: 0},
-	mCRComment:  {Kind: "cmt", Arg: "-- c\r", Pos: 0},
-	mUniSpace:   {Kind: "fnws", Arg: "\u00a0"},
-	mIdentStrip: {Kind: "lit", Arg: "dq-alias", Arg2: "--"},
-	mGluedFn:    {Kind: "nows"},
+	mBackslash:   {Kind: "lit", Arg: "sq-bs", Arg2: "a"},
+	mEString:     {Kind: "lit", Arg: "E-bsbs", Arg2: "a"},
+	mDollarUni:   {Kind: "lit", Arg: "dtag-uni", Arg2: "a"},
+	mFromMask:    {Kind: "kwlook", Arg: "extract"},
+	mQuoteInCmt:  {Kind: "cmt", Arg: "/* it's */", Pos: 0},
+	mCRComment:   {Kind: "cmt", Arg: "-- c\r", Pos: 0},
+	mUniSpace:    {Kind: "fnws", Arg: "\u00a0"},
+	mIdentStrip:  {Kind: "lit", Arg: "dq-alias", Arg2: "--"},
+	mGluedFn:     {Kind: "nows"},
+	mMarkerInLit: {Kind: "lit", Arg: "sq", Arg2: "--"},
 }
 
 // canonicalSingles returns the plain statements that carry only the given mechanism.
@@ -1167,6 +1319,9 @@ func canonicalSingles(class string) []spec {
 		{Kind: "func", DB: "db2", M: "secret", Fn: "read_parquet", FnQ: "plain", Style: "str", Path: "abs-file"},
 		{Kind: "func", DB: "db2", M: "secret", Fn: "parquet_scan", FnQ: "dq", Style: "str", Path: "abs-file"},
 	}
+	if class == mMarkerInLit {
+		carriers = []src{{Kind: "tref", DB: "db2", M: "secret", Style: "plain"}}
+	}
 	var out []spec
 	for _, c := range carriers {
 		if d.Kind == "fnws" && c.Kind != "func" {
@@ -1176,3 +1331,22 @@ func canonicalSingles(class string) []spec {
 	}
 	return out
 }
+
+// fastPathEssential reports whether a reduced statement still needs the read_parquet
+// mention (literal or comment) next to another disguise: the raw-SQL fast path is then a
+// second, independent cause and gets its own signature.
+func fastPathEssential(sp spec) bool {
+	n, rp := 0, false
+	for _, d := range sp.Decos {
+		for _, c := range strings.Split(decoClass(d), " + ") {
+			if c == mRewriteSkp {
+				rp = true
+			} else {
+				n++
+			}
+		}
+	}
+	return rp && n > 0 && !(sp.Src.Kind == "func" && sp.Src.Fn == "read_parquet")
+}
+
+const fastPathSig = "denied file read via raw-SQL fast path: statement containing the substring read_parquet (in a literal or comment) is executed unrewritten"
